@@ -74,7 +74,8 @@ def make_headers(nh, ows, vform, rnd):
         elif vform == "long":
             val = "v" * (rnd.choice([100, 1000, 3000]) if nh <= 5 else 100)      # header block stays below the client's 64 KiB limit
         else:
-            val = rnd.choice(["x", "text/plain; charset=utf-8", "Mon, 01 Jan 2001 00:00:00 GMT", "1"])
+            val = rnd.choice(["x", "text/plain; charset=utf-8", "Mon, 01 Jan 2001 00:00:00 GMT", "1",
+                              "Jos\u00e9", "\u00fc", "na\u00efve caf\u00e9", "\u00ff\u0080", "a\x7f", "\x01x\x02"])      # obs-text and control bytes are part of a value
         if confusable is not None:
             val = confusable
         pre = {"none": "", "sp": " ", "tab": "\t", "both": " \t ", "trail": " "}[ows]
